@@ -158,6 +158,15 @@ PROPS = {
         assumptions=COMMON_ASSUME + ["'shortly afterwards' after drop = within a 6 s bounded wait while a plain tokio canary completes connect/accept/close/EOF in < 1 s; otherwise inconclusive", "close() returning a non-empty error list when nothing failed counts as a violation; the converse direction is not reachable"],
         hang_is_violation=True,
     ),
+    "C18": dict(
+        built=True, level="exploration", design_ref="4/C18",
+        technique="runtime monitor: model-based operation sequences on the real runtime (real TCP v4/v6/localhost and IPC listeners) compared with a reference model of the bind set after every operation; OS-level connect probes and tagged exchanges over every connection ever made",
+        rule="seeded operation sequences of length 10..40 over {bind tcp4:0, tcp6:0, localhost:0, fresh ipc path, duplicate of a bound endpoint, unbind bound, unbind unknown / already unbound, connect-in to every bound endpoint + exchange on every earlier connection} for REP, PULL, PUB, ROUTER sockets (12 sequences per type quick, 100 thorough); every sequence is non-trivial (>= 10 operations); distinct by seed",
+        text="Each operation's effect on binds(), on OS-level connectability (checked immediately after unbind returns) and on established connections is compared with the model on every executed sequence; sequences are sampled.",
+        note="trusted: reference bind-set model in harness/src/props/c18.rs; OS connect semantics",
+        assumptions=COMMON_ASSUME + ["bounded waits (6 s) apply only to message delivery over loopback, not to the by-the-time-it-returns checks"],
+        hang_is_violation=True,
+    ),
     "C19": dict(
         built=True, level="exploration", design_ref="4/C19",
         technique="runtime differential monitor: library parser vs independent reference parser over exhaustive small-alphabet strings, grammar-based and random Unicode strings; panic, accept/reject, classification and round-trip oracles",
@@ -168,6 +177,16 @@ PROPS = {
         exhaustive={"quick": False, "thorough": False},
     ),
 }
+
+PROPS["C20"] = dict(
+    built=True, level="fault_enumeration", design_ref="4/C20",
+    technique="runtime monitoring on the real runtime with injected handshake faults: raw clients that stop / close / switch to garbage at a chosen byte offset of greeting+READY while well-behaved raw clients connect before, during and after and exchange tagged messages; socket monitor event stream checked for AcceptFailed / Accepted counts; canary-guarded bounded waits",
+    rule="faults = byte offset 0..N+3 of a valid greeting+READY (N ~ 95; thorough: every offset, quick: boundaries 0,9,10,63,64,65,N, multiples of 8 and a seeded quarter) x {stop sending, close, garbage} x 1..8 simultaneous bad clients x bound socket types {REP, ROUTER, PULL, PUB, XPUB} x {tcp4, ipc}; every scenario is non-trivial (>= 1 bad client and 4 good clients); distinct by (type, transport, bad-client list)",
+    text="Each (offset, behaviour) pair is executed against a live listener with good clients interleaved; progress of good clients is a bounded wait guarded by a canary, never a bare timeout verdict.",
+    note="trusted: socket monitor channel (1024 events) is not overflowed by these scenarios",
+    assumptions=COMMON_ASSUME + ["a client that closes mid-handshake must produce exactly one AcceptFailed; a garbage client produces at most one (garbage inside a variable-length READY field is data and may even complete a valid handshake)", "stalled handshakes produce no event until they end"],
+    hang_is_violation=True,
+)
 
 ORDER = ["C%02d" % i for i in range(1, 21)]
 
@@ -218,4 +237,4 @@ def write_manifest(path):
 
 
 HOOK_COMMITS = ["c9656b6"]
-FIX_COMMITS = ["48acad6", "f3d84e9", "be9d015", "f1a8fb7", "1cfb825", "8c4f97d", "f5bbfca", "5a43de4", "bb4d285", "5ad7c15", "d7cbe1d", "4a082f5", "870d37c", "bbdc498", "8f19308", "42821fe"]
+FIX_COMMITS = ["48acad6", "f3d84e9", "be9d015", "f1a8fb7", "1cfb825", "8c4f97d", "f5bbfca", "5a43de4", "bb4d285", "5ad7c15", "d7cbe1d", "4a082f5", "870d37c", "bbdc498", "8f19308", "42821fe", "3b285b1"]
